@@ -14,7 +14,9 @@ RULE = ("seeded random histories as for C13 but without ill-formed calls, every 
         "dimension lists are compared with the model's sharing relation; plus an in-place edit of the newest array's "
         "dimension set at the end of the history. Non-trivial: >= 4 executed steps.")
 ASSUMPTIONS = [
-    "to_df / from_df, stacking/splitting, stocks, systems and export are snapshotted under C11, C17, C18, C19 (their own checks)",
+    "to_df / from_df, stacking / splitting, stocks built from existing arrays, lifetime parameters and stock conversion are exercised by the "
+    "'api' stream (inputs deep-compared before and after, numpy.shares_memory on the outputs); they are judged by the oracle only, "
+    "the heap model covers the array operations of the histories",
     "numpy view-vs-copy facts are encoded in Model/Heap.v and validated here through numpy.shares_memory",
 ]
 
@@ -22,8 +24,14 @@ INPLACE = ("set", "set_values", "set_values_arr", "rawfill")
 INDEPENDENT = ("copy", "full_like", "bin", "un", "cast", "get", "cumsum")
 
 
+# (stock_helper.stock_stack is not called: on the pinned tree it always raises a ValidationError, because it builds the stacked
+#  stock without dims; it is not exported from the package and no listed property speaks about it)
+API_CALLS = ("to_df", "from_df", "set_values_from_df", "stack", "split", "stock_from_arrays", "lifetime_prms",
+             "to_stock_type", "sum_values", "items_where", "from_dims_superset")
+
+
 def generate(tier, rng):
-    cases = []
+    cases = api_cases(tier, rng)
     n, maxlen = (300, 8) if tier == "quick" else (3000, 16)
     unis = [mk_universe((2, 2, 3), "abc"), mk_universe((2, 3, 2, 2), "abcd")]
     for h in range(n):
@@ -38,12 +46,198 @@ def generate(tier, rng):
     return cases
 
 
+def api_cases(tier, rng):
+    out = []
+    for rep in range(2 if tier == "quick" else 8):
+        for call in API_CALLS:
+            for layout in ("C", "F"):
+                out.append(dict(stream="api", coq=False, call=call, layout=layout, seed=rng.randrange(10 ** 6)))
+    return out
+
+
+def _snap(x):
+    """deep snapshot of an input: FlodymArray, DataFrame, ndarray, stock, or a list of those"""
+    import pandas as pd
+    import flodym as fd
+    if isinstance(x, (list, tuple)):
+        return [_snap(y) for y in x]
+    if isinstance(x, fd.FlodymArray):
+        return ("arr", [(d.letter, d.name, list(d.items)) for d in x.dims], x.values.shape, x.values.copy())
+    if isinstance(x, pd.DataFrame):
+        return ("df", x.copy(deep=True))
+    if isinstance(x, np.ndarray):
+        return ("nd", x.copy())
+    if isinstance(x, fd.Stock):
+        return ("stock", _snap(x.stock), _snap(x.inflow), _snap(x.outflow))
+    return ("other", repr(x))
+
+
+def _equal(a, b):
+    if isinstance(a, list):
+        return len(a) == len(b) and all(_equal(p, q) for p, q in zip(a, b))
+    if a[0] != b[0]:
+        return False
+    if a[0] == "arr":
+        return a[1] == b[1] and a[2] == b[2] and np.array_equal(a[3], b[3], equal_nan=True)
+    if a[0] == "df":
+        return a[1].equals(b[1]) and list(a[1].columns) == list(b[1].columns) and a[1].index.equals(b[1].index)
+    if a[0] == "nd":
+        return a[1].shape == b[1].shape and np.array_equal(a[1], b[1], equal_nan=True)
+    if a[0] == "stock":
+        return all(_equal(p, q) for p, q in zip(a[1:], b[1:]))
+    return a[1] == b[1]
+
+
+def _arrays_of(x):
+    import flodym as fd
+    if isinstance(x, (list, tuple)):
+        return [a for y in x for a in _arrays_of(y)]
+    if isinstance(x, dict):
+        return [a for y in x.values() for a in _arrays_of(y)]
+    if isinstance(x, fd.FlodymArray):
+        return [x.values]
+    if isinstance(x, np.ndarray):
+        return [x]
+    if isinstance(x, fd.Stock):
+        return [x.stock.values, x.inflow.values, x.outflow.values]
+    return []
+
+
+def run_api(case):
+    import flodym as fd
+    import stocksdrv as sd
+    r = np.random.RandomState(case["seed"])
+    t = fd.Dimension(name="time", letter="t", items=[2000, 2001, 2002, 2003], dtype=int)
+    g = fd.Dimension(name="good", letter="g", items=["car", "bus", "van"])
+    e = fd.Dimension(name="element", letter="e", items=["Fe", "Cu"])
+    ds = fd.DimensionSet(dim_list=[t, g])
+
+    def arr(dims, cls=fd.FlodymArray, lo=1, hi=9):
+        v = r.randint(lo, hi, size=dims.shape).astype(float)
+        if case["layout"] == "F":
+            v = np.asfortranarray(v)
+        return cls(dims=dims, values=v)
+
+    call = case["call"]
+    # the property lists which results must be independent of their sources (copy, arithmetic, cast_to, full_like, slice reads);
+    # of the calls below only split (slice reads) is among them -- for the others only "inputs unchanged" is demanded
+    independent = call == "split"
+    if call == "to_df":
+        a = arr(ds)
+        inputs = [a]
+        f = lambda: [a.to_df(index=i, dim_to_columns=c, sparse=s) for i in (True, False) for c in (None, "good") for s in (False, True)]
+        outputs_of = lambda res: []
+    elif call == "from_df":
+        a = arr(ds)
+        df = a.to_df(index=bool(case["seed"] % 2))
+        inputs = [df]
+        f = lambda: fd.FlodymArray.from_df(dims=ds, df=df)
+        outputs_of = lambda res: [res]
+    elif call == "set_values_from_df":
+        a, b = arr(ds), arr(ds)
+        df = b.to_df(index=False)
+        inputs = [df]
+        f = lambda: a.set_values_from_df(df)
+        outputs_of = lambda res: [a]
+    elif call == "stack":
+        parts = [arr(ds), arr(fd.DimensionSet(dim_list=[g, t]))]
+        inputs = parts
+        from flodym.flodym_array_helper import flodym_array_stack
+        f = lambda: flodym_array_stack(parts, dimension=e)
+        outputs_of = lambda res: [res]
+    elif call == "split":
+        a = arr(fd.DimensionSet(dim_list=[t, g, e]))
+        inputs = [a]
+        f = lambda: a.split("g")
+        outputs_of = lambda res: list(res.values())
+    elif call == "stock_from_arrays":
+        inflow = arr(ds, fd.StockArray)
+        mean = arr(fd.DimensionSet(dim_list=[g]), fd.Parameter, 2, 6)
+        inputs = [inflow, mean]
+
+        def f():
+            lm = fd.NormalLifetime(dims=ds, time_letter="t", mean=mean, std=2.0)
+            st = fd.InflowDrivenDSM(dims=ds, inflow=inflow, lifetime_model=lm, name="s")
+            st.compute()
+            return st
+        outputs_of = lambda res: [res.stock, res.outflow, res.lifetime_model.mean, res.lifetime_model.std]
+    elif call == "stock_stack":
+        def mk():
+            st = fd.SimpleFlowDrivenStock(dims=ds, inflow=arr(ds, fd.StockArray), outflow=arr(ds, fd.StockArray, 0, 3), name="s")
+            st.compute()
+            return st
+        stocks = [mk(), mk()]
+        inputs = stocks
+        from flodym.stock_helper import stock_stack
+        f = lambda: stock_stack(stocks, dimension=e)
+        outputs_of = lambda res: [res]
+    elif call == "lifetime_prms":
+        mean = arr(ds, fd.Parameter, 3, 9)       # same dimensions as the model: nothing to tile
+        std = arr(fd.DimensionSet(dim_list=[g, t]), fd.Parameter, 1, 3)
+        inputs = [mean, std]
+
+        def f():
+            lm = fd.NormalLifetime(dims=ds, time_letter="t")
+            lm.set_prms(mean=mean, std=std)
+            _ = lm.sf
+            return lm
+        outputs_of = lambda res: [res.mean, res.std]
+    elif call == "to_stock_type":
+        inflow = arr(ds, fd.StockArray)
+        lm = fd.FixedLifetime(dims=ds, time_letter="t", mean=3)
+        st = fd.InflowDrivenDSM(dims=ds, inflow=inflow, lifetime_model=lm, name="s")
+        st.compute()
+        inputs = [st]
+        f = lambda: st.to_stock_type(fd.StockDrivenDSM, solver="manual")
+        outputs_of = lambda res: []           # a conversion re-uses the arrays by design
+    elif call == "sum_values":
+        a = arr(ds)
+        inputs = [a]
+        f = lambda: (a.sum_values(), a.sum_values_over(("g",)), a.sum_values_to(("g",)), a.cast_values_to(fd.DimensionSet(dim_list=[t, g, e])))
+        outputs_of = lambda res: []
+    elif call == "items_where":
+        a = arr(ds)
+        inputs = [a]
+        f = lambda: a.items_where(lambda x: x > 4)
+        outputs_of = lambda res: []
+    else:
+        big = fd.DimensionSet(dim_list=[t, g, e])
+        inputs = [big[l] for l in "tge"]
+        f = lambda: fd.FlodymArray.from_dims_superset(dims_superset=big, dim_letters=("g", "t"))
+        outputs_of = lambda res: []
+        inputs = []
+    before = _snap(inputs)
+    try:
+        res = f()
+    except Exception as ex:  # noqa
+        return dict(kind="api", ok=False, exc=type(ex).__name__, msg=str(ex)[:160], unchanged=_equal(before, _snap(inputs)), shared=[])
+    unchanged = _equal(before, _snap(inputs))
+    shared = []
+    if independent:
+        ins = _arrays_of(inputs) + [x.values for x in inputs if hasattr(x, "values") and isinstance(getattr(x, "values", None), np.ndarray)]
+        for oi, o in enumerate(_arrays_of(outputs_of(res))):
+            for ii, i in enumerate(ins):
+                if o is i or np.shares_memory(o, i):
+                    shared.append([oi, ii])
+    return dict(kind="api", ok=True, unchanged=unchanged, shared=shared)
+
+
 def run_impl(case):
+    if case.get("stream") == "api":
+        return run_api(case)
     conc, obs = heapdrv.drive(case["uni"], case["abstract"])
     return dict(kind="history", concrete=conc, obs=obs)
 
 
 def oracle(case, ob):
+    if case.get("stream") == "api":
+        if not ob["ok"]:
+            return f"{case['call']} raised {ob['exc']}: {ob['msg'][:80]}"
+        if not ob["unchanged"]:
+            return f"{case['call']} (layout {case['layout']}) changed one of its inputs"
+        if ob["shared"]:
+            return f"{case['call']} (layout {case['layout']}): output #{ob['shared'][0][0]} shares memory with input #{ob['shared'][0][1]}"
+        return None
     for si, (c, o) in enumerate(zip(ob["concrete"]["steps"], ob["obs"])):
         tag = f"step {si} {c['op']}"
         b, a = o["before"], o["after"]
@@ -76,6 +270,8 @@ def oracle(case, ob):
 
 
 def failure_key(case, obs, msg):
+    if case.get("stream") == "api":
+        return case["call"] + msg[-30:]
     return msg.split(":", 1)[0].split(" ")[-1] + msg.split(":", 1)[1][:20]
 
 
@@ -84,7 +280,7 @@ def to_coq(case, ob):
 
 
 def nontrivial(case):
-    return len(case["abstract"]) >= 4
+    return case.get("stream") == "api" or len(case["abstract"]) >= 4
 
 
 SIGNATURES = {}
